@@ -62,6 +62,18 @@ pub enum SendOp {
 }
 
 impl SendOp {
+    /// The opaque node-local byte strings of the identifiers this operation was given (each must travel verbatim).
+    pub fn local_forms(&self) -> Vec<Vec<u8>> {
+        let mut out = vec![];
+        let mut pid = |p: &ExternalPid| if let Some(b) = &p.local_ext_bytes { out.push(b.to_vec()); };
+        match self {
+            SendOp::Send { to, .. } => pid(to),
+            SendOp::RegSend { from, .. } => pid(from),
+            SendOp::Link { from, to } | SendOp::Unlink { from, to, .. } => { pid(from); pid(to); }
+            SendOp::Monitor { from, to, r } | SendOp::Demonitor { from, to, r } => { pid(from); pid(to); if let Some(b) = &r.local_ext_bytes { out.push(b.to_vec()); } }
+        }
+        out
+    }
     pub fn expected(&self) -> DistMsg {
         match self {
             SendOp::Send { to, msg, .. } => DistMsg { control: RefVal::Tuple(vec![RefVal::int(2), RefVal::atom(""), den_pid(to)]), payload: Some(denote(msg)) },
@@ -115,6 +127,18 @@ fn op_list(thorough: bool) -> Vec<SendOp> {
     for (i, p) in payloads.iter().enumerate() {
         ops.push(SendOp::Send { from: pid_plain(1), to: tos[i % tos.len()].clone(), msg: p.clone() });
         ops.push(SendOp::RegSend { from: if i % 2 == 0 { pid_plain(2) } else { pid_local() }, name: ["rex", "", "ünïcödé", &"n".repeat(255), &"é".repeat(200), &"€".repeat(85)][i % 6].to_string(), msg: p.clone() });
+    }
+    // the same logical identifiers in alternating wire forms, back to back: plain, node-local, plain, another node-local hash
+    {
+        let plain = ExternalPid::new(Atom::new("p@h"), 9, 1, 2);
+        let local2 = { let mut raw = vec![0x11u8, 0x22, 0x33, 0x44, 5, 6, 7, 8, 88, 119, 3, b'p', b'@', b'h', 0, 0, 0, 9, 0, 0, 0, 1, 0, 0, 0, 2]; raw.truncate(26); ExternalPid::with_local_ext_bytes(Atom::new("p@h"), 9, 1, 2, raw) };
+        for to in [plain.clone(), pid_local(), plain.clone(), local2.clone(), pid_local(), plain.clone()] {
+            ops.push(SendOp::Send { from: pid_plain(1), to: to.clone(), msg: OwnedTerm::atom("same_pid_other_form") });
+        }
+        for to in [pid_local(), plain.clone(), local2.clone()] { ops.push(SendOp::Link { from: pid_plain(3), to: to.clone() }); }
+        for from in [pid_local(), plain.clone(), local2.clone(), plain.clone()] { ops.push(SendOp::RegSend { from, name: "rex".into(), msg: OwnedTerm::atom("same_sender_other_form") }); }
+        let rp = ExternalReference::new(Atom::new("p@h"), 2, vec![5, 6]);
+        for r in [&rl, &rp, &rl] { ops.push(SendOp::Monitor { from: pid_plain(4), to: plain.clone(), r: r.clone() }); }
     }
     for to in &tos {
         ops.push(SendOp::Link { from: pid_plain(3), to: to.clone() });
@@ -181,6 +205,7 @@ fn inputs_exec2(who: (bool, bool), thorough: bool, ctx: &WorkerCtx) -> ExecResul
         let mut seen_frames = 0usize;
         let no_probe = || 0u64;
         let mut nth = 0usize;
+        let all_local_forms: Vec<Vec<u8>> = { let mut v: Vec<Vec<u8>> = op_list(false).iter().flat_map(|o| o.local_forms()).collect(); v.sort(); v.dedup(); v };
         for op in op_list(thorough) {
             res.steps += 1;
             nth += 1;
@@ -216,6 +241,14 @@ fn inputs_exec2(who: (bool, bool), thorough: bool, ctx: &WorkerCtx) -> ExecResul
                     if new.len() != 1 || !rest.is_empty() {
                         res.violations.push(("operation did not write exactly one frame".into(), detail(format!("{} frames, {} stray bytes", new.len(), rest.len()))));
                     } else {
+                        // identifiers given in node-local form travel in exactly that form, the others in none (the payloads
+                        // of the list hold no node-local identifiers, so the count of LOCAL_EXT wrappers is that of the operation)
+                        let locals = op.local_forms();
+                        let has = |needle: &[u8]| new[0].windows(needle.len() + 1).any(|w| w[0] == 121 && &w[1..] == needle);
+                        let wrappers = all_local_forms.iter().filter(|l| has(l)).count();
+                        if locals.iter().any(|l| !has(l)) || wrappers != { let mut d = locals.clone(); d.sort(); d.dedup(); d.len() } {
+                            res.violations.push(("an identifier is not written in the wire form it was given in".into(), detail(format!("{} node-local identifier(s) given, {} known node-local form(s) found in the frame", locals.len(), wrappers))));
+                        }
                         match read_frame(new[0], dist_hdr, &mut cache) {
                             Ok(m) => if !same_msg(&m, &op.expected()) { res.violations.push(("frame read by the independent reader differs from the operation's control tuple / payload".into(), detail(format!("read {} / {:?}", m.control.short(), m.payload.map(|p| p.short()))))); },
                             Err(e) => res.violations.push(("independent reader cannot read the frame".into(), detail(e))),
